@@ -37,6 +37,8 @@ SET_CLAUSES = {
     "allowed-cpuset-differs-from-root", "allowed-cpuset-not-in-root", "complete-cpuset-not-in-parent", "complete-nodeset-not-in-parent",
     "cpuset-not-in-parent", "nodeset-not-in-parent", "nodeset-not-inherited-local-children", "local-nodeset-intersects-inherited",
     "pu-not-allowed", "numa-not-allowed",
+    # a normal leaf without PU below (its PU children dropped from the document) is accepted as well: last level is not the PU level
+    "pu-level",
     # NOT here: pu-cpuset, numa-nodeset, sets-missing, no-numa-node, cache-attr-vs-type, child-kind ...: the importer
     # checks those per object (topology-xml.c validity checks); seeing them on a loaded topology is a new violation
 }
@@ -187,6 +189,11 @@ def classify_crash(job):
     if job.backend == 0 and phase == "load" and kind == "asan-SEGV" and re.match(rb'<topology version="\d+\.\d+', body) and b">" not in body \
        and any(f.startswith(("hwloc__nolibxml_import", "hwloc_nolibxml_look_init")) for f in funcs):
         return "look-init-no-gt", "hwloc_nolibxml_look_init: strchr(buffer,'>')+1 with no '>' after <topology version=\"x.y\" (NULL+1 handed to the tokenizer): " + where
+    am = re.search(r"/hwloc/([\w.-]+):\d+: (\w+): Assertion `([^']*)' failed", "\n".join(l for l in err.split("\n") if "hwloc__check_" not in l and ": hwloc_topology_check:" not in l))
+    if am and "bridge.downstream_type" not in am.group(3):
+        return "assert:%s" % am.group(2), "failed assertion in %s (%s): `%s' in phase %s" % (am.group(2), am.group(1), am.group(3)[:120], phase)
+    if top[0] == "hwloc_connect_levels" and "null pointer passed" in err:
+        return "no-normal-children-memcpy-null", "a root without normal children (no PU at all) reaches hwloc_connect_levels: memcpy(objs, root->children == NULL, 0): " + where
     if kind == "asan-stack-overflow" and "hwloc__xml_import_object" in funcs:
         return "deep-nesting-stack-overflow", "hwloc__xml_import_object recurses once per nesting level without any bound: a document with tens of thousands of nested <object> elements exhausts the stack (SIGSEGV also without sanitizers): " + where
     if "Assertion `obj->attr->bridge.downstream_type" in err:
@@ -255,7 +262,11 @@ def judge(run, job, wf_lines):
                 else:
                     v.append(("wf:%s" % ",".join(c for c in clauses if c not in SET_CLAUSES), "loaded topology violates WF clause(s) %s" % ",".join(clauses)))
             if chk and chk.group(1) != "ok" and wf is not None and wf.startswith("wf ok"):
-                v.append(("topology_check-abort-wf-ok", "hwloc_topology_check() aborts on a loaded topology that wf_check accepts"))
+                cm = re.search(r": (hwloc__check_\w+|hwloc_topology_check): Assertion `([^']*)' failed", job.err)
+                if cm and "gp_index" in cm.group(2):
+                    v.append(("gp-index-unvalidated-check-abort", "gp_index values are imported unchecked (0, or colliding once truncated to the 32-bit bitmap index used by hwloc__check_object): hwloc_topology_check() aborts: `%s'" % cm.group(2)[:100]))
+                else:
+                    v.append(("topology_check-abort-wf-ok:%s" % (cm.group(1) if cm else "?"), "hwloc_topology_check() aborts on a loaded topology that wf_check accepts: %s" % (cm.group(2)[:120] if cm else "")))
             if re.search(r"dup rc=0", out) and "dup-check abort" in out and chk and chk.group(1) == "ok":
                 v.append(("dup-check-abort", "hwloc_topology_check() aborts on the dup of a loaded topology that passes it"))
         else:
@@ -300,7 +311,7 @@ TFLAGS = [0, 0, 0, 1, 8, 128, 256, 512, 128 | 256 | 512, 1 | 8]
 def make_jobs(run, exe, scratch):
     rng = run.rng
     quick = run.tier == "quick"
-    mult = 1 if quick else 50
+    mult = 1 if quick else 30   # x30 keeps the thorough tier under 15 min on a loaded 16-core machine (x50 measured: 22 min at load 50+)
     jobs = []
 
     def add(kind, data, origin, backends=(0,), methods=("buf",), tflags=None, opts=None):
@@ -510,7 +521,8 @@ def check(run, replay=None):
         if slow:
             again = [Job(j.kind, j.backend, j.method, j.tflags, j.opts, j.data, j.origin) for j in slow]
             d2 = tempfile.mkdtemp(dir=scratch)
-            run_jobs(exe, again, d2, watchdog=15)
+            for a in again:          # one at a time: nothing else of this check competes for the machine
+                run_jobs(exe, [a], d2, watchdog=15)
             for j, a in zip(slow, again):
                 j.out, j.err, j.status = a.out, a.err, a.status
                 run.bump("watchdog-confirmed" if a.status in ("signal:14", "signal:24") else "watchdog-not-confirmed")
